@@ -56,7 +56,15 @@ pub enum Case {
 
 fn gen_order(rng: &mut Rng, tier: Tier) -> Case {
     let win = *rng.pick(&[1u8, 2, 3, 10, 255]);
-    let min_delay = *rng.pick(&[0u64, 1_000, 2_000_000, 20_000_000]);
+    // one case in five with a minimum delay beyond the sorter's own 1000 s start-up allowance, up to the
+    // largest value the parameter can hold
+    let min_delay = if rng.sub("bigdelay").chance(1, 5) {
+        *rng.sub("bigdelay2").pick(&[1_000_000_001u64, 1_500_000_000, 3_600_000_000, u64::MAX / 2, u64::MAX - 1_000_000_000, u64::MAX - 10, u64::MAX])
+    } else {
+        *rng.pick(&[0u64, 1_000, 2_000_000, 20_000_000])
+    };
+    // with a large minimum delay the recording starts long after the lifecycles did, so that delays up to the bound exist
+    let rx_shift = if min_delay > 20_000_000 { min_delay.min(rng.sub("rxshift").range(900_000_000, 5_000_000_000)) } else { 0 };
     let n_ecu = rng.urange(1, 3);
     let mut lcs: Vec<(u8, u64)> = vec![];
     let base = WALL_BASE_US + rng.below(1_000_000_000);
@@ -75,7 +83,7 @@ fn gen_order(rng: &mut Rng, tier: Tier) -> Case {
     }
     let n = rng.urange(2, tier.pick(150, 300));
     let mut msgs = vec![];
-    let mut rx = base + 60_000_000 + rng.below(10_000_000);
+    let mut rx = base + 60_000_000 + rng.below(10_000_000) + rx_shift;
     let mut active: Vec<usize> = vec![0; n_ecu];
     for _ in 0..n {
         rx += match rng.below(6) {
@@ -104,7 +112,8 @@ fn gen_order(rng: &mut Rng, tier: Tier) -> Case {
         let delay: i64 = match rng.below(6) {
             0 => 0,
             1 => -(rng.below(5_000_000) as i64),
-            2 => min_delay.saturating_sub(100) as i64,
+            2 => min_delay.saturating_sub(100).min(i64::MAX as u64) as i64,
+            _ if min_delay > 20_000_000 => rng.below(min_delay.saturating_sub(100).min(rx - s) + 1) as i64,
             _ => rng.below(min_delay.saturating_sub(100) + 1) as i64,
         };
         let target = rx as i64 - delay - s as i64;
@@ -168,7 +177,7 @@ impl Check for C10 {
                 t,
                 table,
                 win: *k.pick(&[1u8, 2, 3, 10, 255]),
-                min_delay: *k.pick(&[0u64, 1_000, 2_000_000, 20_000_000]),
+                min_delay: *k.pick(&[0u64, 1_000, 2_000_000, 20_000_000, 1_500_000_000, u64::MAX - 10, u64::MAX]),
                 reindex: *k.pick(&[0u8, 0, 0, 0, 1, 2]),
             }
         }
@@ -423,7 +432,7 @@ impl Check for C10 {
         out
     }
     fn rule() -> &'static str {
-        "two kinds of runs: (perm) a simulated world (as C05) through the real lifecycle stage and then the real sorter with the real table, a shifted/partial stale table (start times moved by up to 100 s, or set to 0 or u64::MAX) or an empty table, window in {1,2,3,10,255} s, minimum delay in {0, 1 ms, 2 s, 20 s}: output must be a permutation with every message unchanged (in a third of these runs the messages reach the sorter renumbered per ECU from 0 or all with index 0, and multisets of whole messages are compared); (order) 1-3 ECUs x 1-3 lifecycles with given start times (a fifth of them resume lifecycles whose start lies before the start of the lifecycle they resumed, so that start and displayed start differ), reception times never decreasing (ties included), per-message buffering delay within the configured minimum (incl. exactly at the bound and 'negative' = capped), control requests interspersed: output must be ordered by (calculated time, original position); precondition re-checked on the concrete case; non-trivial = the sorter had to move at least one message / more than one message; distinct = hash of the case"
+        "two kinds of runs: (perm) a simulated world (as C05) through the real lifecycle stage and then the real sorter with the real table, a shifted/partial stale table (start times moved by up to 100 s, or set to 0 or u64::MAX) or an empty table, window in {1,2,3,10,255} s, minimum delay in {0, 1 ms, 2 s, 20 s, 1500 s, u64::MAX-10, u64::MAX}: output must be a permutation with every message unchanged (in a third of these runs the messages reach the sorter renumbered per ECU from 0 or all with index 0, and multisets of whole messages are compared); (order) 1-3 ECUs x 1-3 lifecycles with given start times (a fifth of them resume lifecycles whose start lies before the start of the lifecycle they resumed, so that start and displayed start differ), reception times never decreasing (ties included), per-message buffering delay within the configured minimum (a fifth of the cases with a minimum beyond the sorter's 1000 s start-up allowance: 1000.000001 s, 1500 s, 1 h, u64::MAX/2 ... u64::MAX, the recording then starting up to 5000 s after the lifecycles; incl. exactly at the bound and 'negative' = capped), control requests interspersed: output must be ordered by (calculated time, original position); precondition re-checked on the concrete case; non-trivial = the sorter had to move at least one message / more than one message; distinct = hash of the case"
     }
     fn assumptions() -> Vec<&'static str> {
         vec!["calculated time as stated: min(lifecycle start + timestamp, reception time), reception time for control requests; lifecycle start taken from the table handed to the sorter"]
